@@ -58,6 +58,9 @@ func maybeChild() bool {
 	case "child-after":
 		childAfter()
 		return true
+	case "child-write":
+		childWrite()
+		return true
 	}
 	return false
 }
@@ -93,13 +96,19 @@ type rawDay struct {
 	ReadErr bool       `json:"read_err,omitempty"`
 	Blocks  []rawBlock `json:"blocks"`
 }
+type targetObs struct {
+	TS      int64  `json:"ts"`
+	Write   string `json:"write"`   // directory name a DirWriter for TS would open
+	Recover string `json:"recover"` // directory name a DirReader falls back to (prefix search), "" = none
+}
 type rawIface struct {
-	Iface   string   `json:"iface"`
-	Exists  bool     `json:"exists"`
-	WalkErr string   `json:"walk_err,omitempty"`
-	Walk    []rawDay `json:"walk"`
-	ListErr string   `json:"list_err,omitempty"`
-	List    []rawDay `json:"list"`
+	Targets []targetObs `json:"targets"`
+	Iface   string      `json:"iface"`
+	Exists  bool        `json:"exists"`
+	WalkErr string      `json:"walk_err,omitempty"`
+	Walk    []rawDay    `json:"walk"`
+	ListErr string      `json:"list_err,omitempty"`
+	List    []rawDay    `json:"list"`
 }
 type rawState struct {
 	IfacesErr string     `json:"ifaces_err,omitempty"`
@@ -150,6 +159,20 @@ func childRead() {
 	os.Stdout.Write(b)
 }
 
+// child-write DB IFACE TS ID: one real DBWriter write-out (a block with one flow, BytesRcvd = ID) at TS
+func childWrite() {
+	a := os.Args[2:]
+	ts, _ := strconv.ParseInt(a[2], 10, 64)
+	id, _ := strconv.ParseUint(a[3], 10, 64)
+	m := hashmap.NewAggFlowMap()
+	m.PrimaryMap.Set(types.NewV4KeyStatic([4]byte{10, 0, 0, 1}, [4]byte{10, 0, 0, 2}, []byte{0, 80}, 6),
+		types.Counters{BytesRcvd: id, BytesSent: 1, PacketsRcvd: 1, PacketsSent: 1})
+	if err := goDB.NewDBWriter(a[0], a[1], encoders.EncoderTypeLZ4).Write(m, capturetypes.CaptureStats{}, ts); err != nil {
+		fmt.Fprintln(os.Stderr, "write error:", err)
+		os.Exit(3)
+	}
+}
+
 type afterOut struct {
 	S1      rawState `json:"s1"`
 	LaterOK bool     `json:"later_ok"`
@@ -187,8 +210,15 @@ func childAfter() {
 	os.Stdout.Write(b)
 }
 
-func readRaw(db, probe string) rawState {
+func readRaw(db, probeArg string) rawState {
 	var st rawState
+	probe, tsCSV, _ := strings.Cut(probeArg, "|")
+	var tss []int64
+	for _, t := range strings.Split(tsCSV, ",") {
+		if v, err := strconv.ParseInt(t, 10, 64); err == nil {
+			tss = append(tss, v)
+		}
+	}
 	func() {
 		defer func() {
 			if r := recover(); r != nil {
@@ -215,14 +245,15 @@ func readRaw(db, probe string) rawState {
 		}
 		sort.Strings(sorted)
 		for _, n := range sorted {
-			st.Per = append(st.Per, readIface(db, n))
+			st.Per = append(st.Per, readIface(db, n, tss))
 		}
 	}()
 	return st
 }
 
-func readIface(db, n string) (ri rawIface) {
+func readIface(db, n string, tss []int64) (ri rawIface) {
 	ri.Iface = n
+	ri.Targets = []targetObs{}
 	defer func() {
 		if r := recover(); r != nil {
 			ri.WalkErr = fmt.Sprint("panic: ", r)
@@ -233,6 +264,13 @@ func readIface(db, n string) (ri rawIface) {
 		return ri // an interface that does not exist holds no data
 	}
 	ri.Exists = true
+	for _, ts := range tss {
+		to := targetObs{TS: ts, Write: filepath.Base(gpfile.VerifWritePath(ifDir, ts))}
+		if p, err := gpfile.VerifRecoverPath(ifDir, ts, "0-0-0-0-0-0-stale"); err == nil {
+			to.Recover = filepath.Base(p)
+		}
+		ri.Targets = append(ri.Targets, to)
+	}
 	days, err := goDB.VerifWalkDB(db, n, 0, 4102444800)
 	if err != nil {
 		ri.WalkErr = err.Error()
@@ -265,13 +303,14 @@ type DayObs struct {
 	Blocks  [][2]int64 `json:"blocks"`
 }
 type PerIface struct {
-	Iface   string   `json:"iface"`
-	Exists  bool     `json:"exists"`
-	WalkErr bool     `json:"walk_err,omitempty"`
-	Walk    []DayObs `json:"walk"`
-	ListErr bool     `json:"list_err,omitempty"`
-	List    []DayObs `json:"list"`
-	Msg     string   `json:"msg,omitempty"`
+	Targets []targetObs `json:"targets"`
+	Iface   string      `json:"iface"`
+	Exists  bool        `json:"exists"`
+	WalkErr bool        `json:"walk_err,omitempty"`
+	Walk    []DayObs    `json:"walk"`
+	ListErr bool        `json:"list_err,omitempty"`
+	List    []DayObs    `json:"list"`
+	Msg     string      `json:"msg,omitempty"`
 }
 type State struct {
 	IfacesErr bool       `json:"ifaces_err,omitempty"`
@@ -296,10 +335,10 @@ func self() string {
 	return p
 }
 
-func readState(db string, probe []string, hashes map[string]int) (*State, error) {
+func readState(db string, probe string, hashes map[string]int) (*State, error) {
 	ctx, cancel := context.WithTimeout(context.Background(), 60*time.Second)
 	defer cancel()
-	cmd := exec.CommandContext(ctx, self(), "child-read", db, strings.Join(probe, ","))
+	cmd := exec.CommandContext(ctx, self(), "child-read", db, probe)
 	var out, eb bytes.Buffer
 	cmd.Stdout, cmd.Stderr = &out, &eb
 	if err := cmd.Run(); err != nil {
@@ -329,7 +368,7 @@ func convState(rs *rawState, hashes map[string]int) *State {
 		return out
 	}
 	for _, p := range rs.Per {
-		st.Per = append(st.Per, PerIface{Iface: p.Iface, Exists: p.Exists, WalkErr: p.WalkErr != "", Walk: conv(p.Walk),
+		st.Per = append(st.Per, PerIface{Targets: p.Targets, Iface: p.Iface, Exists: p.Exists, WalkErr: p.WalkErr != "", Walk: conv(p.Walk),
 			ListErr: p.ListErr != "", List: conv(p.List), Msg: strings.TrimSpace(firstN(p.WalkErr+" "+p.ListErr, 160))})
 	}
 	return st
@@ -783,7 +822,7 @@ func selectPoints(evs []event, n int) []int {
 	return out
 }
 
-func crashPoint(in *Input, base, wd string, tr *traceResult, k int, probe []string, hashes map[string]int) (crashObs, [2]*State, error) {
+func crashPoint(in *Input, base, wd string, tr *traceResult, k int, probe string, hashes map[string]int) (crashObs, [2]*State, error) {
 	ev := tr.events[k]
 	co := crashObs{K: k, Next: ev.norm}
 	for i := 0; i < k; i++ {
@@ -836,7 +875,7 @@ func crashPoint(in *Input, base, wd string, tr *traceResult, k int, probe []stri
 	// read the crashed tree, run a later uninterrupted merge with the same arguments, read again
 	ctx, cancel := context.WithTimeout(context.Background(), 120*time.Second)
 	defer cancel()
-	args := append([]string{"child-after", strings.Join(probe, ",")}, mergeArgs(in, dir)[1:]...)
+	args := append([]string{"child-after", probe}, mergeArgs(in, dir)[1:]...)
 	cmd := exec.CommandContext(ctx, self(), args...)
 	cmd.Env = append(os.Environ(), "TZ=UTC")
 	var ob, eb bytes.Buffer
@@ -940,7 +979,11 @@ func coqState(s *State) string {
 		if p.ListErr {
 			l = "Err"
 		}
-		per = append(per, fmt.Sprintf("(%s, %s, %s)", vhlib.CoqString(p.Iface), w, l))
+		var tg []string
+		for _, t := range p.Targets {
+			tg = append(tg, fmt.Sprintf("(%d, %s, %s)", t.TS, vhlib.CoqString(t.Write), vhlib.CoqString(t.Recover)))
+		}
+		per = append(per, fmt.Sprintf("(%s, %s, %s, [%s])", vhlib.CoqString(p.Iface), w, l, strings.Join(tg, "; ")))
 	}
 	ifs := "Ok " + vhlib.CoqStrings(s.Ifaces)
 	if s.IfacesErr {
@@ -960,7 +1003,7 @@ func coqOp(e event) string {
 	}
 }
 
-func coqCase(in *Input, dst, src []treeEntry, probe []string, names []nameEnt, tr *traceResult, obs *observed) string {
+func coqCase(in *Input, dst, src []treeEntry, probe []string, probeTS []int64, names []nameEnt, tr *traceResult, obs *observed) string {
 	var sb strings.Builder
 	sb.WriteString("mkCase\n  ")
 	sb.WriteString(coqTree(dst))
@@ -968,6 +1011,11 @@ func coqCase(in *Input, dst, src []treeEntry, probe []string, names []nameEnt, t
 	sb.WriteString(coqTree(src))
 	fmt.Fprintf(&sb, "\n  (mkOpts %s %s %s %d)", vhlib.CoqStrings(in.Ifaces), vhlib.CoqBool(in.Overwrite), vhlib.CoqBool(in.DryRun), in.TolSec)
 	fmt.Fprintf(&sb, "\n  %s", vhlib.CoqStrings(probe))
+	var pts []string
+	for _, t := range probeTS {
+		pts = append(pts, fmt.Sprint(t))
+	}
+	fmt.Fprintf(&sb, "\n  [%s]", strings.Join(pts, "; "))
 	ns := make([]string, len(names))
 	for i, n := range names {
 		ns[i] = fmt.Sprintf("(%s, %d, %s, %s)", vhlib.CoqString(n.Iface), n.TS, coqBlocks(n.Blocks), vhlib.CoqString(n.Name))
